@@ -83,7 +83,7 @@ ProposeA(i, psz) ==
   /\ LET e == [EmptyEntry EXCEPT !.pid = NextPid, !.psz = psz, !.sz = IF psz = 0 THEN 0 ELSE psz + 2]
          m == [Msg("Prop", 0) EXCEPT !.from = i, !.entries = <<e>>]
          r == Step(Cfg(i), node[i], disk[i], m, RTO(i))
-     IN  Emit(i, [MkAct("Propose", i) EXCEPT !.pid = NextPid, !.psz = psz, !.ret = IF r.err = "" THEN "ok" ELSE r.err],
+     IN  Emit(i, [MkAct("Propose", i) EXCEPT !.pid = NextPid, !.psz = psz, !.ents = <<e>>, !.ret = IF r.err = "" THEN "ok" ELSE r.err],
               r.n, disk[i], app[i], net)
 
 \* encoded size of a conf change payload: a model-level stand-in (2 bytes per change + 2)
@@ -93,7 +93,7 @@ ProposeConfChangeA(i, cc) ==
   /\ LET e == [EmptyEntry EXCEPT !.type = "CC2", !.cc = cc, !.pid = NextPid, !.psz = CCPsz(cc), !.sz = CCPsz(cc) + 4]
          m == [Msg("Prop", 0) EXCEPT !.entries = <<e>>]
          r == Step(Cfg(i), node[i], disk[i], m, RTO(i))
-     IN  Emit(i, [MkAct("ProposeConfChange", i) EXCEPT !.pid = NextPid, !.ret = IF r.err = "" THEN "ok" ELSE r.err],
+     IN  Emit(i, [MkAct("ProposeConfChange", i) EXCEPT !.pid = NextPid, !.ents = <<e>>, !.ret = IF r.err = "" THEN "ok" ELSE r.err],
               r.n, disk[i], app[i], net)
 
 ReadIndexA(i) ==
